@@ -239,7 +239,8 @@ def check(prop, tier, seed, replay=None):
         cov["traces_validated_against_impl"] += len(part["histories"])
     write_evidence(prop, tier, seed, "model_checking", cov, time.time() - t0, nviol, ASSUMPTIONS)
     shutil.rmtree(wd, ignore_errors=True)
-    log(f"[done] {prop} {tier}: violations={nviol} rows={cov['traces_validated_against_impl']}/{cov['states']} wall={time.time()-t0:.1f}s")
+    nrows = sum(t["rows_executed"] for t in cov["tables"])
+    log(f"[done] {prop} {tier}: violations={nviol} rows={nrows}/{cov['states']} (+{cov['traces_validated_against_impl'] - nrows} schedules/events) wall={time.time()-t0:.1f}s")
     return 1 if nviol else 0
 
 
